@@ -30,12 +30,13 @@ macro_rules! dispatch {
             "C16" => Some($f::<checks::c16::C16>($($arg),*)),
             "C17" => Some($f::<checks::c17::C17>($($arg),*)),
             "C18" => Some($f::<checks::c18::C18>($($arg),*)),
+            "C19" => Some($f::<checks::c19::C19>($($arg),*)),
             _ => None,
         }
     };
 }
 
-pub const ALL_IDS: &[&str] = &["C01", "C03", "C04", "C09", "C11", "C15", "C16", "C17", "C18"];
+pub const ALL_IDS: &[&str] = &["C01", "C03", "C04", "C09", "C11", "C15", "C16", "C17", "C18", "C19"];
 
 fn drive_id(id: &str, o: &Opts) -> Option<i32> {
     dispatch!(id, drive, o)
